@@ -946,6 +946,8 @@ fn corpus() -> Vec<&'static str> {
         "enc S=5331 N= X=0 | FV 0 100 5 AC 10,14,18,22,26 I 1 AT 8 3 I 2 AT 8 3 I 3 AT 8 3 I 4 AT 8 0 I 5",
         "enc S=5331 N= X=0 | FV 0 1 3 AT 2 5 B 1 AT 8 9 I 2 AT 8 3 I 3",
         // P5 xlsb PtgMemFunc nested without bound: stack overflow (abort); run in a child process with a 256 KiB stack
+        // more than 1024 shared-formula groups alive at once (a wide filled-down table)
+        "xlsxshared 1500 7",
         "deep xlsb 10000",
         "deep xlsb 63",
         "deep xlsb 64",
@@ -1489,7 +1491,13 @@ fn run_file_case(fc: &FileCase, drv: &mut Driver, rep: &mut Report) {
         for (k, n) in fc.ctx.names.iter().enumerate() {
             // built-in names are sheet-scoped (itab = 1-based sheet), the others workbook-scoped
             let itab = if n.starts_with("_xlnm") { (k % fc.ctx.sheets.len()) as u16 + 1 } else { 0 };
-            book.names.push(XlsName { name: n.clone(), rgce: vec![0x3a, 0, 0, 0, 0, 0, 0], name_wide: None, itab });
+            // some names have no formula at all (cce = 0: the placeholder of a macro / add-in function); they still
+            // count in the list PtgName indexes
+            let rgce = if lrng.chance(1, 4) { vec![] } else { vec![0x3a, 0, 0, 0, 0, 0, 0] };
+            if rgce.is_empty() {
+                rep.count("file_xls_name_without_formula");
+            }
+            book.names.push(XlsName { name: n.clone(), rgce, name_wide: None, itab });
         }
         // undecodable formulas: expected text = the reader's documented fallback around the decoder's error
         let mut bad_txt: Vec<(usize, u32, u32, String)> = vec![];
@@ -1577,7 +1585,8 @@ fn run_file_case(fc: &FileCase, drv: &mut Driver, rep: &mut Report) {
         book.extern_sheets = fc.ctx.xtis.iter().map(|&i| (i as i32, i as i32)).collect();
         for (k, n) in fc.ctx.names.iter().enumerate() {
             let itab = if n.starts_with("_xlnm") { (k % fc.ctx.sheets.len()) as u32 } else { 0xFFFF_FFFF };
-            book.names.push(DefinedName { name: n.clone(), rgce: vec![0x3a, 0, 0, 0, 0, 0, 0, 0, 0], itab });
+            let rgce = if lrng.chance(1, 4) { vec![] } else { vec![0x3a, 0, 0, 0, 0, 0, 0, 0, 0] };
+            book.names.push(DefinedName { name: n.clone(), rgce, itab });
         }
         for (i, name) in fc.ctx.sheets.iter().enumerate() {
             let mut sh = XlsbSheet::new(name);
@@ -1891,6 +1900,75 @@ fn xlsx_case_fails(xc: &XlsxCase, drv: &mut Driver) -> Vec<Fail> {
     fails
 }
 
+/// one wide sheet with `n` shared-formula groups alive at once (one fill-down group per column, 3 rows; Excel writes
+/// such sheets for a filled-down table): every cell of every group must carry the group's text. The master texts
+/// are absolute (`$A$1+<col>`), so the text is the same in every cell of a group whatever the translation.
+fn run_xlsx_shared_wide(n: u32, seed: u64, drv: &mut Driver, rep: &mut Report) {
+    let input = format!("xlsxshared {n} {seed}");
+    rep.case(&input, true);
+    rep.count("xlsx_wide_shared_groups_case");
+    let mut book = XlsxBook::new();
+    let mut sh = XlsxSheet::new("Wide");
+    let mut exp: BTreeMap<(u32, u32), String> = BTreeMap::new();
+    for c in 0..n {
+        let text = format!("$A$1+{c}");
+        let rng_ref = format!("{}1:{}3", verif_harness::xlsxw::col_name(c), verif_harness::xlsxw::col_name(c));
+        for r in 0..3u32 {
+            let mut cell = XCell::num("1");
+            cell.formula = Some(verif_harness::xlsxw::XFormula {
+                text: if r == 0 { text.clone() } else { String::new() },
+                shared: Some((c, if r == 0 { Some(rng_ref.clone()) } else { None })),
+            });
+            sh.set(r, c, cell);
+            exp.insert((r, c), text.clone());
+        }
+    }
+    book.sheets.push(sh);
+    let mut layout = Layout::random(&mut Rng::new(seed));
+    layout.pct_whitespace = 0;
+    let built = book.build(&layout);
+    let e = expected_dump(&exp);
+    let m = {
+        let reply = drv.ask(&format!("xf {}", ev_wire(&built.sheet_events[0])));
+        match reply.strip_prefix("ok") {
+            Some(rest) => {
+                let mut cells = BTreeMap::new();
+                for w in rest.split_whitespace() {
+                    let p: Vec<&str> = w.split(',').collect();
+                    let t = String::from_utf8(unhex(p[2])).unwrap();
+                    if !t.is_empty() {
+                        cells.insert((p[0].parse().unwrap(), p[1].parse().unwrap()), t);
+                    }
+                }
+                expected_dump(&cells)
+            }
+            None => reply,
+        }
+    };
+    let imp = match guarded(|| Xlsx::new(Cursor::new(built.bytes))) {
+        Ok(Ok(mut wb)) => guarded(|| impl_dump0(&mut wb, "Wide")).unwrap_or_else(|p| format!("panic:{p}")),
+        Ok(Err(e)) => format!("err:{e:?}"),
+        Err(p) => format!("panic:{p}"),
+    };
+    // report the first differing cell only (the dumps are long)
+    let first_diff = |a: &str, b: &str| -> String {
+        let (x, y): (Vec<&str>, Vec<&str>) = (a.split(' ').collect(), b.split(' ').collect());
+        match x.iter().zip(y.iter()).position(|(p, q)| p != q) {
+            Some(i) => format!("{} cells; first difference at item {i}: {} vs {}", x.len() - 1, x[i], y[i]),
+            None => format!("{} vs {} items", x.len(), y.len()),
+        }
+    };
+    if imp != e {
+        rep.fail("impl_vs_spec", "file_xlsx_shared_groups", &input, &first_diff(&imp, &e), &first_diff(&m, &e), "every cell of every shared group holds the group's formula text");
+    }
+    if imp != m {
+        rep.fail("impl_vs_model", "file_xlsx_shared_groups", &input, &first_diff(&imp, &m), "", "");
+    }
+    if m != e {
+        rep.fail("model_vs_spec", "file_xlsx_shared_groups", &input, "", &first_diff(&m, &e), "");
+    }
+}
+
 fn run_xlsx_case(xc: &XlsxCase, drv: &mut Driver, rep: &mut Report, shrunk: &mut u32) {
     let input = xc.wire();
     let ncells: usize = xc.sheets.iter().map(|g| g.len()).sum();
@@ -1931,7 +2009,8 @@ fn run_xlsx_case(xc: &XlsxCase, drv: &mut Driver, rep: &mut Report, shrunk: &mut
 }
 
 /// ods: rows of cell runs. cell word: `_k` blank run, `v` float, `s` string, `f<hex>[*k]` formula without a cached
-/// value, `g<hex>[*k]` float with formula; row word: `<repeat>:<cell>,<cell>…`
+/// value, `g<hex>[*k]` float with formula, `h<hex>[*k]` / `c<hex>[*k]` the same as a covered cell (hidden under a
+/// merged cell but keeping its content); row word: `<repeat>:<cell>,<cell>…`
 struct OdsCase {
     rows: Vec<(usize, Vec<String>)>,
 }
@@ -1972,6 +2051,9 @@ impl OdsCase {
                             "v" => OdsCell::float(2.5),
                             "s" => OdsCell::string("txt"),
                             "f" => OdsCell::new(OdsVal::Empty).with_formula(&String::from_utf8(unhex(&body[1..])).unwrap()),
+                            // cells hidden under a merged one that keep their content: table:covered-table-cell
+                            "h" => OdsCell::new(OdsVal::Empty).with_formula(&String::from_utf8(unhex(&body[1..])).unwrap()).covered(),
+                            "c" => OdsCell::float(3.0).with_formula(&String::from_utf8(unhex(&body[1..])).unwrap()).covered(),
                             _ => OdsCell::float(1.0).with_formula(&String::from_utf8(unhex(&body[1..])).unwrap()),
                         };
                         if let Some(k) = rep {
@@ -2014,7 +2096,8 @@ fn gen_ods_case(rng: &mut Rng) -> OdsCase {
                 0 | 1 => format!("_{}", rng.pick(&[1usize, 2, 5, 40])),
                 2 => "v".to_string(),
                 3 => "s".to_string(),
-                4..=6 => format!("f{}", hex(format!("of:={}", gen_formula_text(rng)).as_bytes())),
+                4..=5 => format!("f{}", hex(format!("of:={}", gen_formula_text(rng)).as_bytes())),
+                6 => format!("{}{}", rng.pick(&["h", "c"]), hex(format!("of:={}", gen_formula_text(rng)).as_bytes())),
                 _ => format!("g{}", hex(format!("of:={}", gen_formula_text(rng)).as_bytes())),
             };
             let w = if !w.starts_with('_') && rng.chance(1, 6) { format!("{w}*{}", rng.range(2, 4)) } else { w };
@@ -2150,6 +2233,7 @@ fn run_input(input: &str, drv: &mut Driver, rep: &mut Report, shrunk: &mut u32) 
         }
         "dn" => run_dn(&unhex(words[1]), drv, rep),
         "deep" => run_deep(words[2].parse().unwrap(), drv, rep),
+        "xlsxshared" => run_xlsx_shared_wide(words[1].parse().unwrap(), words[2].parse().unwrap(), drv, rep),
         "xlsxf" => run_xlsx_case(&XlsxCase::parse(&words), drv, rep, shrunk),
         "odsf" => run_ods_case(&OdsCase::parse(&words), rep),
         "file" => run_file_case(&FileCase::parse(&words), drv, rep),
@@ -2304,6 +2388,10 @@ fn main() {
     if args.replay.is_none() {
         // stage 3: xlsx / ods stored-text formulas at their cells
         let mut rng = Rng::new(args.seed ^ 0x57_0e_ed);
+        // one wide sheet with more shared-formula groups alive than any fixed-size cache would hold
+        let ng = 1100 + rng.below(700) as u32;
+        let ls = rng.next();
+        run_xlsx_shared_wide(ng, ls, &mut drv, &mut rep);
         let nx = args.count(1500, 150_000) / if args.n.is_some() { 4 } else { 1 };
         for _ in 0..nx.max(1) {
             let xc = gen_xlsx_case(&mut rng);
